@@ -7,8 +7,8 @@
 From Coq Require Import List PArith ZArith Bool String.
 From SV Require Import SM.Store SM.StoreProofs SM.StoreCert SM.StoreCertProofs SM.StoreCopy SM.StoreCopyProofs
   SM.StoreExamples SM.KvAdd SM.KvAddProofs SM.StoreCopySrc SM.StoreCopySrcProofs SM.KvAddFresh SM.KvAddFreshProofs
-  SM.StoreCopyExport SM.StoreCopyExportProofs SM.OpPurity SM.OpPurityProofs
-  Gen.CopyCensus_gen Gen.CopyExportReads_gen Gen.C09OpCensus_gen.
+  SM.StoreCopyExport SM.StoreCopyExportProofs SM.OpPurity SM.OpPurityProofs SM.CollapseCensus SM.CollapseCensusProofs
+  Gen.CopyCensus_gen Gen.CopyExportReads_gen Gen.C09OpCensus_gen Gen.C09Collapse_gen.
 Import ListNotations.
 
 (** FRAME THEOREM.  If no mutable location is reachable both from [a] and from the roots [R] a mutator
@@ -267,3 +267,36 @@ Theorem c09_operand_write_observable_refuted :
   exists h', trun 1%positive [2%positive] (op_h, []) [(MStore 2%positive [VAtom 3%Z], OParam)] (h', []) /\
              unfold 1 h' (VRef 2%positive) <> unfold 1 op_h (VRef 2%positive).
 Proof. exact operand_write_observable. Qed.
+
+(** ROUND 2 — INSTANCING.  [collapse_writes] / [collapse_enters] / [collapse_copies] (Gen/C09Collapse_gen.v) classify
+    every store, every value entering a non-local object and every copy in instancing.collapse_one.  A run whose
+    stores and stored values are never tagged [CTemplate] leaves a template that shared no mutable object with the
+    target beforehand observed unchanged, at every depth (collapse_one is an in-place operator on the target with the
+    template as a read-only operand; the copies it makes are fresh by the copy census of VisGroup, Solid, Entity). *)
+Theorem c09_collapse_template_frame : forall tgt tmpl h tr h' F',
+  closed h -> alloc h tgt -> alloc h tmpl -> sep h tmpl [tgt] ->
+  crun tgt tmpl (h, []) tr (h', F') -> forallb event_clean tr = true ->
+  forall n, unfold n h' (VRef tmpl) = unfold n h (VRef tmpl).
+Proof. exact collapse_template_frame. Qed.
+
+Theorem c09_census_collapse_template_frame : forall (W E : list (string * corigin)) tgt tmpl h tr h' F',
+  collapse_never_writes_template W = true -> collapse_only_copies_enter E = true ->
+  (forall e, In e tr -> (exists s, In (s, snd (fst e)) W) /\ forall vo, In vo (snd e) -> exists s, In (s, vo) E) ->
+  closed h -> alloc h tgt -> alloc h tmpl -> sep h tmpl [tgt] ->
+  crun tgt tmpl (h, []) tr (h', F') ->
+  forall n, unfold n h' (VRef tmpl) = unfold n h (VRef tmpl).
+Proof. exact census_collapse_template_frame. Qed.
+
+Theorem c09_collapse_template_write_refuted :
+  collapse_never_writes_template [("old_brush.localise(...)"%string, CTemplate)] = false /\
+  exists h', crun 1%positive 2%positive (cl_h, []) [(MStore 2%positive [VAtom 128%Z], CTemplate, [CScalar])] (h', []) /\
+             unfold 1 h' (VRef 2%positive) <> unfold 1 cl_h (VRef 2%positive).
+Proof. exact collapse_template_write_observable. Qed.
+
+Theorem c09_collapse_template_enter_refuted :
+  collapse_only_copies_enter [("old_brush -> vmf.add_brush"%string, CTemplate)] = false /\
+  exists h1 h2,
+    crun 1%positive 2%positive (cl_h, []) [(MStore 1%positive [VRef 2%positive], CTarget, [CTemplate])] (h1, []) /\
+    steps (h1, [1%positive]) [MStore 2%positive [VAtom 128%Z]] (h2, [1%positive]) /\
+    unfold 1 h2 (VRef 2%positive) <> unfold 1 cl_h (VRef 2%positive).
+Proof. exact collapse_template_enter_observable. Qed.
